@@ -39,6 +39,11 @@ def check_options():
     # check input file
     if not os.path.isfile(options.args().infile):
         raise DDSMTException('input file is not a regular file')
+    # the reduced input must not replace the input file
+    if os.path.exists(options.args().outfile) and os.path.samefile(
+            options.args().infile,
+            options.args().outfile):
+        raise DDSMTException('output file is the input file')
 
     if options.args().parser_test:
         # only parse and print
